@@ -32,12 +32,36 @@ _add("SmVerif.Tie.Small", "RsEncoder", [
     "SmVerif.Tie.tie_encode_byte", "SmVerif.Tie.tie_encode_byte_panics", "SmVerif.Tie.encode_byte_ok_iff"])
 _add("SmVerif.Tie.Small", "RsUtils", ["SmVerif.Tie.tie_is_abs_path", "SmVerif.Tie.is_abs_path_total"])
 
+_add("SmVerif.Tie.Lookup", "RsUtils", ["SmVerif.Tie.tie_bsearch", "SmVerif.Tie.tie_glb", "SmVerif.Tie.tie_glb_none_iff"])
+_add("SmVerif.Tie.Lookup", "RsTypes", [
+    "SmVerif.Tie.tie_token_getters", "SmVerif.Tie.tie_lookup_token", "SmVerif.Tie.tie_lookup_token_some",
+    "SmVerif.Tie.tie_lookup_token_none", "SmVerif.Tie.tie_lookup_token_error", "SmVerif.Tie.lookup_token_total"])
+_add("SmVerif.Tie.Paths", "RsUtils", [
+    "SmVerif.Tie.tie_splitAny", "SmVerif.Tie.tie_join", "SmVerif.Tie.tie_comps", "SmVerif.Tie.tie_sort_two",
+    "SmVerif.Tie.tie_common_prefix_two", "SmVerif.Tie.tie_make_relative_path", "SmVerif.Tie.make_relative_path_total",
+    "SmVerif.Tie.tie_c19_resolves", "SmVerif.Tie.tie_c19_dot_iff"])
+_add("SmVerif.Tie.Hermes", "RsHermes", [
+    "SmVerif.Tie.tie_partition_point", "SmVerif.Tie.tie_partition_point_map", "SmVerif.Tie.tie_get_scope_for_token",
+    "SmVerif.Tie.get_scope_for_token_total", "SmVerif.Tie.tie_get_scope_for_token_iter"])
+_add("SmVerif.Tie.Decode", "RsDecodeTokens", [
+    "SmVerif.Tie.Decode.tie_splitOn", "SmVerif.Tie.Decode.tie_decode_rmi", "SmVerif.Tie.Decode.tie_decode_rmi_panics",
+    "SmVerif.Tie.Decode.tie_decode_regular_tokens", "SmVerif.Tie.Decode.tie_decode_regular_tokens_4GiB",
+    "SmVerif.Tie.Decode.lines_hypothesis_needed"])
+
 # which tie modules speak about code a property's theorems depend on
 PROP_MODULES = {
-    "C01": ["SmVerif.Tie.Vlq"], "C02": ["SmVerif.Tie.Vlq"], "C03": ["SmVerif.Tie.Vlq"],
-    "C05": ["SmVerif.Tie.Vlq", "SmVerif.Tie.Header"], "C06": ["SmVerif.Tie.Vlq"],
-    "C07": ["SmVerif.Tie.Vlq", "SmVerif.Tie.Small"], "C11": ["SmVerif.Tie.Vlq"],
-    "C12": ["SmVerif.Tie.Header"], "C14": ["SmVerif.Tie.Vlq"], "C19": ["SmVerif.Tie.Small"],
+    "C01": ["SmVerif.Tie.Vlq", "SmVerif.Tie.Decode"],
+    "C02": ["SmVerif.Tie.Vlq", "SmVerif.Tie.Decode"],
+    "C03": ["SmVerif.Tie.Vlq"],
+    "C04": ["SmVerif.Tie.Lookup"],
+    "C05": ["SmVerif.Tie.Vlq", "SmVerif.Tie.Header", "SmVerif.Tie.Decode", "SmVerif.Tie.Lookup", "SmVerif.Tie.Hermes"],
+    "C06": ["SmVerif.Tie.Vlq", "SmVerif.Tie.Decode"],
+    "C07": ["SmVerif.Tie.Vlq", "SmVerif.Tie.Small", "SmVerif.Tie.Decode", "SmVerif.Tie.Lookup"],
+    "C11": ["SmVerif.Tie.Vlq"],
+    "C12": ["SmVerif.Tie.Header"],
+    "C14": ["SmVerif.Tie.Vlq", "SmVerif.Tie.Hermes"],
+    "C17": ["SmVerif.Tie.Lookup"],
+    "C19": ["SmVerif.Tie.Paths"],
 }
 
 def tie_for(prop):
